@@ -10,6 +10,7 @@ mod rng;
 mod sx;
 
 mod astdump;
+mod c05;
 mod c06;
 mod c08;
 mod c15;
@@ -99,6 +100,7 @@ fn main() {
     // panics inside the code under test are caught per case; silence the default hook's noise
     std::panic::set_hook(Box::new(|_| {}));
     match group.as_str() {
+        "c05" => c05::run(&args, &mut out),
         "c06" => c06::run(&args, &mut out),
         "c08" => c08::run(&args, &mut out),
         "c10" => c08::run_c10(&args, &mut out),
